@@ -122,6 +122,49 @@ def _run_seed(args):
   return name, 'fail', 'seeded change not reported'
 
 
+def load_benign():
+  """Kept behaviour-preserving refactorings (/verif/benign/<id>/patch.diff,
+  written by independent agents): replayed in memory against the current tree;
+  none may add a violation to any property."""
+  import glob  # pylint: disable=g-import-not-at-top
+  base = os.path.join(os.path.dirname(os.path.dirname(os.path.abspath(
+      __file__))), 'benign')
+  return [(os.path.basename(os.path.dirname(p)), p)
+          for p in sorted(glob.glob(os.path.join(base, '*', 'patch.diff')))]
+
+
+def _run_benign(args):
+  prop, name, pf, baseline, base_errs = args
+  baseline = set(baseline)
+  from sa import check  # pylint: disable=g-import-not-at-top
+  from sa import patchlib  # pylint: disable=g-import-not-at-top
+
+  def read(rel):
+    with open(os.path.join(core.REPO_DIR, rel), encoding='utf-8') as f:
+      return f.read()
+  try:
+    with open(pf, encoding='utf-8') as f:
+      ov = patchlib.overrides_for(f.read(), read)
+    for rel, src in ov.items():
+      if rel.endswith('.py'):
+        compile(src, rel, 'exec')
+  except (patchlib.PatchError, OSError, SyntaxError, IndexError) as e:
+    return name, 'skipped', 'does not apply to the current tree: %s' % e
+  try:
+    _, rep = check.run_property(prop, 'quick', write=False, overrides=ov)
+  except core.AnalysisError as e:
+    return name, 'fail', 'ANALYSIS-ERROR on a behaviour-preserving patch: %s' % e
+  new_v = [x for x in rep.violations if (x['rule'], x['key']) not in baseline]
+  if new_v:
+    return name, 'fail', 'behaviour-preserving refactoring reported by %s' % \
+        sorted(set('%s %s' % (x['rule'], x['key'][:60]) for x in new_v))
+  errs = [e for e in rep.analysis_errors if e not in base_errs]
+  if errs:
+    return name, 'fail', 'ANALYSIS-ERROR on a behaviour-preserving patch: %s' \
+        % errs[0][:200]
+  return name, 'ok', 'silent'
+
+
 def run_for(prop, jobs=None, baseline=None):
   variants = load_variants(prop)
   if baseline is None:
@@ -139,8 +182,23 @@ def run_for(prop, jobs=None, baseline=None):
     for r in ex.map(_run_seed, [(prop, n, pf, tuple(baseline))
                                 for n, pf in seeds]):
       seed_results.append(r)
-  bad = [r for r in results + seed_results if r[1] in ('fail', 'error')]
+  benign = load_benign()
+  benign_results = []
+  from sa import check as _check  # pylint: disable=g-import-not-at-top
+  _, _rep0 = _check.run_property(prop, 'quick', write=False)
+  base_errs = tuple(_rep0.analysis_errors)
+  with concurrent.futures.ProcessPoolExecutor(max_workers=jobs) as ex:
+    for r in ex.map(_run_benign, [(prop, n, pf, tuple(baseline), base_errs)
+                                  for n, pf in benign], chunksize=2):
+      benign_results.append(r)
+  bad = [r for r in results + seed_results + benign_results
+         if r[1] in ('fail', 'error')]
   summary = {
+      'benign_refactorings_replayed': len(benign),
+      'benign_refactorings_silent': sum(1 for r in benign_results
+                                        if r[1] == 'ok'),
+      'benign_not_silent': ['%s: %s' % (r[0], r[2]) for r in benign_results
+                            if r[1] != 'ok'],
       'seeded_changes_replayed': len(seeds),
       'seeded_changes_reported': sum(1 for r in seed_results if r[1] == 'ok'),
       'seeded_results': ['%s: %s (%s)' % r for r in seed_results],
